@@ -28,6 +28,7 @@ type layoutEvents struct {
 	SymName  func(Sym) string
 	ParamSym map[int]Sym // integer parameters of the entry function → their symbols
 	DLen     *Lin        // length of the input byte slice
+	Ret0Nil  bool        // the first result is a nil pointer/interface constant (nothing is returned)
 }
 
 // feasibleWith: can the receiver fields take the given values on this path?
@@ -56,8 +57,14 @@ func extractEvents(c *Ctx, fn *ssa.Function, widths map[string]int) ([]layoutEve
 // extractEventsWith is extractEvents under an assumption on the entry state
 // (setup may constrain the parameters' symbols).
 func extractEventsWith(c *Ctx, fn *ssa.Function, widths map[string]int, setup func(e *lfEngine, fr *lfFrame, st *lfState)) ([]layoutEvents, string) {
+	return extractEventsNamed(c, fn, widths, setup, nil)
+}
+
+// extractEventsNamed additionally names objects by their struct type (see lfEngine.typeNames).
+func extractEventsNamed(c *Ctx, fn *ssa.Function, widths map[string]int, setup func(e *lfEngine, fr *lfFrame, st *lfState), typeNames map[string]string) ([]layoutEvents, string) {
 	e := newLenflow(c, 6)
 	e.bits = true
+	e.typeNames = typeNames
 	e.elemLoads = map[Sym]lfElemRef{}
 	e.fieldWidth = widths
 	if fn.Signature.Recv() == nil {
@@ -93,6 +100,14 @@ func extractEventsWith(c *Ctx, fn *ssa.Function, widths map[string]int, setup fu
 			}
 		}
 		le := layoutEvents{Cond: append([]string{}, st.trail...), Events: append([]lfEvent{}, st.events...), Bools: map[string]bool{}, OK: ok, Cons: append([]Cons{}, st.cons...), Fields: map[string]Lin{}}
+		if len(rets) > 0 {
+			switch x := rets[0].(type) {
+			case vPtr:
+				le.Ret0Nil = x.Nil == 1
+			case vNilable:
+				le.Ret0Nil = x.Nil == 1
+			}
+		}
 		le.Elem = e.elemLoads
 		le.ParamSym = e.paramSyms
 		le.DLen = e.dLen
@@ -186,7 +201,7 @@ func cmdLayout(args []string) int {
 			}
 		}
 		for _, ev := range le.Events {
-			if ev.Kind == "cmp" || ev.Kind == "hash" || ev.Kind == "stale" || ev.Kind == "sum" || strings.HasPrefix(ev.Kind, "loop:") {
+			if ev.Kind == "cmp" || ev.Kind == "hash" || ev.Kind == "hashop" || ev.Kind == "stale" || ev.Kind == "sum" || strings.HasPrefix(ev.Kind, "loop:") {
 				extra := ""
 				if ev.Loop != nil {
 					extra = fmt.Sprintf("  guard=%v", ev.Loop.Guard)
